@@ -649,6 +649,9 @@ class NetworkTopologyStrategy(ReplicationStrategy):
                         for host in skipped_hosts:
                             if replicas_remaining == 0:
                                 break
+                            if host in replicas:
+                                # a host with several tokens can have been skipped more than once
+                                continue
                             replicas.append(host)
                             replicas_remaining -= 1
                         del skipped_hosts[:]
